@@ -1282,6 +1282,12 @@ void NifFile::CloneChildren(NiObject* block, NifFile* srcNif, const uint32_t src
 	if (srcBlockId != NIF_NPOS)
 		newIds[srcBlockId] = GetBlockID(block);
 
+	// The root node of the source corresponds to the root node of this file (e.g. skeleton root of a skin instance)
+	auto srcRootNode = srcNif->GetRootNode();
+	auto destRootNode = GetRootNode();
+	if (srcRootNode && destRootNode)
+		newIds.emplace(srcNif->GetBlockID(srcRootNode), GetBlockID(destRootNode));
+
 	std::vector<NiObject*> clonedBlocks;
 
 	// Assign new refs and strings
